@@ -337,6 +337,57 @@ def other_type_names_fail():
     return None
 
 
+def handed_out_values_fail():
+    """What a message hands out (dict(), bytes(), bin(), the data of a sysex message, a copy) belongs to the caller: changing it
+    is no entry point of the checked API, so it cannot change the message — its type, its set of attributes, its values."""
+    import mido
+    for t in msgs.TYPE_NAMES:
+        for frozen in (False, True):
+            m = mido.Message(t, time=3)
+            if frozen:
+                from mido.frozen import freeze_message
+                m = freeze_message(m)
+            before = (m.type, sorted((k, repr(v), type(v).__name__) for k, v in vars(m).items()))
+            what = 'frozen ' + t if frozen else t
+            try:
+                d = m.dict()
+                for k in list(d):
+                    d[k] = 300 if k not in ('type', 'data') else ('note_off' if k == 'type' else [999])
+                d['bogus'] = 1
+                for k in list(d)[:2]:
+                    del d[k]
+                d.clear()
+                b = m.bytes()
+                if isinstance(b, list):
+                    b[:] = [0x90, 1, 2, 3]
+                bb = m.bin()
+                if isinstance(bb, bytearray):
+                    bb[:] = b'\x00'
+                c = m.copy()
+                for k in vars(c):
+                    if k not in ('type',) and not frozen:
+                        try:
+                            setattr(c, k, 1 if k != 'data' else (1,))
+                        except Exception:      # noqa: BLE001
+                            pass
+                if t == 'sysex':
+                    dd = m.data
+                    try:
+                        dd += (5,)
+                    except Exception:      # noqa: BLE001
+                        pass
+            except Exception as e:      # noqa: BLE001
+                return f'using what a {what} message hands out raised {type(e).__name__}: {e}'
+            after = (m.type, sorted((k, repr(v), type(v).__name__) for k, v in vars(m).items()))
+            if after != before:
+                return (f'after the caller changed what a {what} message handed out (its dict(), bytes(), bin(), a copy), the message '
+                        f'itself changed: {before} -> {after}')
+            bad = valid_ref(m)
+            if bad:
+                return f'after the caller changed what a {what} message handed out the message is invalid ({bad}): {vars(m)}'
+    return None
+
+
 def run(ck):
     ck.prepare_lean()
     ck.run_corpus(oracle)
@@ -370,6 +421,11 @@ def run(ck):
     ck.sample({'ops': repr(hs[-1])})
     ck.sample({'ops': repr(hs[7])})
     ck.compare('msgobj', reqs, impl, ck.driver.run(reqs))
+    f = handed_out_values_fail()
+    ck.evaluations += 1
+    ck.count('handed_out_values')
+    if f:
+        ck.oracle_fail({'handed_out_values': True}, f)
     return ck.finish(RULE, assumptions=['vars(msg)[...] = ... and skip_checks=True are outside the checked API',
                                         'an unknown message TYPE raises LookupError (the property lists exceptions for unknown attributes)'])
 
@@ -377,6 +433,8 @@ def run(ck):
 def oracle(case):
     if isinstance(case, dict) and case.get('other_type_names'):
         return other_type_names_fail()
+    if isinstance(case, dict) and case.get('handed_out_values'):
+        return handed_out_values_fail()
     return run_history(eval(case['ops']))[1]
 
 
